@@ -36,6 +36,36 @@ class StmtMixin:
     def s_Expr(self, st, n):
         if isinstance(n.value, ast.Constant):
             return [(st, None)]
+        if isinstance(n.value, ast.Yield):
+            # generators have eager list semantics: every consumer in scope drains them before touching state they read
+            out = []
+            for s, v in (self.ev(st, n.value.value) if n.value.value is not None else [(st, PyC(None))]):
+                if is_exc(v):
+                    out.append((s, ("raise", v)))
+                    continue
+                cur = s.env.get("__yield__", PyList([], "list"))
+                if isinstance(cur, PyList):
+                    new = PyList(cur.items + [v], "list")
+                else:
+                    new = Val(f"(v_list (seq.++ (seqof {asV(cur)}) (seq.unit {asV(self.lift(v))})))", kind="list", fresh=TRUE)
+                s.env = {**s.env, "__yield__": new}
+                out.append((s, None))
+            return out
+        if isinstance(n.value, ast.YieldFrom):
+            out = []
+            for s, v in self.ev(st, n.value.value):
+                if is_exc(v):
+                    out.append((s, ("raise", v)))
+                    continue
+                cur = s.env.get("__yield__", PyList([], "list"))
+                items = self.static_items(v)
+                if isinstance(cur, PyList) and items is not None:
+                    new = PyList(cur.items + items, "list")
+                else:
+                    new = Val(f"(v_list (seq.++ (seqof {asV(self.lift(cur))}) (seqof {asV(self.lift(v))})))", kind="list", fresh=TRUE)
+                s.env = {**s.env, "__yield__": new}
+                out.append((s, None))
+            return out
         return [(s, ("raise", v) if is_exc(v) else None) for s, v in self.ev(st, n.value)]
 
     def s_Return(self, st, n):
@@ -216,6 +246,8 @@ class StmtMixin:
             raise OutOfSubset(f"item assignment on {lb.kind}", node)
         self.frame_write(st, lb, lb.origin or ast.unparse(base_node), node)
         new = self.dict_set(st, asV(lb), asS(li), asV(lv))
+        if isinstance(idx, PyC) and isinstance(idx.obj, str):
+            self.dict_known[new] = {**self.dict_known.get(asV(lb), {}), idx.obj: v}
         nv = Val(new, kind="dict", fresh=lb.fresh, origin=lb.origin)
         return self.store_back(st, base_node, nv, node)
 
